@@ -11,6 +11,7 @@
   and `genFile` are functions of the parsed description (and observed: the real generator is run twice).
 -/
 import VarlinkProofs.Lemmas.Gen
+import VarlinkProofs.Lemmas.GenTyped
 namespace Varlink.C07
 open Varlink Varlink.Idl Varlink.Gen
 
@@ -176,5 +177,107 @@ theorem view_reports (t : Idl) (f : GoFile) (hf : genFile t = some f) :
   simp [assembleFile, descriptionValue]
 
 example : Domain sample = true := by decide
+
+/-! ## the emitted file is well-formed -/
+
+/-- what `Domain` gives for every member -/
+theorem memberGood_of_domain (t : Idl) (h : Domain t = true) : ∀ m ∈ t.members, MemberGood m := by
+  obtain ⟨h1, _, h3, _, _, h6, h7, _⟩ := domain_parts h
+  intro m hm
+  simp only [nameShapes, Bool.and_eq_true, List.all_eq_true] at h1
+  simp only [fieldsDistinct, List.all_eq_true] at h6
+  exact ⟨memberOk_of_domain t h3 h7 m hm, fun ty hty => (h1.2 m hm).2 ty hty, fun ty hty => h6 m hm ty hty,
+    (h1.2 m hm).1⟩
+
+/-- **package clause**: the package name is a usable identifier unless it is a Go keyword or `main`
+    (known findings, hypothesis `pkgNameUsable`) -/
+theorem gen_pkgOk (t : Idl) (f : GoFile) (h : Domain t = true) (hk : pkgNameUsable t = true)
+    (hf : genFile t = some f) : pkgOk f = true := by
+  obtain ⟨hp, hi, _, _⟩ := pkgname_of_domain t h f hf
+  obtain ⟨h1, _⟩ := domain_parts h
+  simp only [nameShapes, Bool.and_eq_true] at h1
+  obtain ⟨_, hc⟩ := pkgname_spec t.name h1.1
+  simp only [pkgNameUsable, Bool.and_eq_true, Bool.not_eq_true', bne_iff_ne, ne_eq] at hk
+  simp only [pkgOk, validName, Bool.and_eq_true, Bool.not_eq_true', bne_iff_ne, ne_eq, hp]
+  refine ⟨⟨⟨hp ▸ hi, hk.1⟩, ?_⟩, hk.2⟩
+  intro e
+  rw [e] at hc
+  revert hc; decide
+
+/-- **struct types and parameter lists**: every struct type of the emitted file has valid, pairwise distinct field
+    names (`strings.Title` is injective on field names), every parameter list valid names that are no keywords -/
+theorem gen_typesOk (t : Idl) (f : GoFile) (h : Domain t = true) (hf : genFile t = some f) : typesOk f = true := by
+  obtain ⟨h1, h2, _⟩ := domain_parts h
+  simp only [nameShapes, Bool.and_eq_true] at h1
+  exact typesOk_genFile t f (memberGood_of_domain t h) h1.1 h2 hf
+
+/-- **scopes**: in every emitted function the receiver, the parameters `<field>_in_` / `<field>_` , the results
+    `<field>_out_` and the locals (`in`, `out`, `receive`, `err`, …) are pairwise distinct, whatever the field
+    names are (Go keywords and the generator's own identifiers included) -/
+theorem gen_scopesOk (t : Idl) (f : GoFile) (h : Domain t = true) (hf : genFile t = some f) : scopesOk f = true :=
+  scopesOk_genFile t f (memberGood_of_domain t h) hf
+
+/-- **conversions**: for every description type the tagged rendering (`json:"…"` on every field, used for the
+    structs that are encoded) and the untagged rendering (used in signatures) are identical ignoring struct
+    tags at every depth — exactly Go's condition for the explicit conversions the generator emits; a pointer
+    type is converted in the parenthesised form; types copied without conversion have one rendering -/
+theorem conversions_welltyped (ty : Ty) (a b : GoTy) (ha : goTy ty true = some a) (hb : goTy ty false = some b) :
+    a.beqNoTags b = true ∧ b.beqNoTags a = true
+    ∧ (isPtrTy a = (convKind ty == .convParen)) ∧ (isPtrTy b = (convKind ty == .convParen))
+    ∧ (convKind ty = .plain → a = b) :=
+  ⟨(goTy_beqNoTags ty a b ha hb).1, (goTy_beqNoTags ty a b ha hb).2, goTy_isPtr ty true a ha,
+    goTy_isPtr ty false b hb, fun hk => goTy_plain_eq ty a b hk ha hb⟩
+
+example : ∃ a b, goTy (.maybe (.array (.struct (.typed (str "x") .int .nil)))) true = some a
+    ∧ goTy (.maybe (.array (.struct (.typed (str "x") .int .nil)))) false = some b ∧ a.beq b = false
+    ∧ a.beqNoTags b = true := ⟨_, _, rfl, rfl, by decide, by decide⟩
+
+/-- **copies into a tagged struct** (`in.<F> = T(<f>_in_)`, `out.<F> = T(<f>_)`): in any function body where the
+    struct variable has the tagged fields and the variables `<field><suffix>` the untagged field types, every
+    emitted assignment type-checks (`typedStmts` passes over them) -/
+theorem copies_in_welltyped (decls : List Decl) (env : Env) (dst s : Bytes) (fs : Fields)
+    (hc : CopyCtx decls env dst s fs) (l rest : List Stmt) (hl : copyInStmts dst s fs = some l) :
+    typedStmts decls env (l ++ rest) = typedStmts decls env rest :=
+  copyInStmts_typed decls env dst s fs hc fs l rest (fun _ hx => hx) hl
+
+/-- **copies out of the decoded reply** (`<f>_out_ = T(out.<F>)`) -/
+theorem copies_out_welltyped (decls : List Decl) (env : Env) (fs : Fields)
+    (hc : CopyCtx decls env (str "out") (str "_out_") fs) (l rest : List Stmt) (hl : copyOutStmts fs = some l) :
+    typedStmts decls env (l ++ rest) = typedStmts decls env rest :=
+  copyOutStmts_typed decls env fs hc fs l rest (fun _ hx => hx) hl
+
+/-- FULL STATEMENT of "the emitted file passes the checker" (not proved at this strength, and false for the
+    current generator: see the known findings in `KnownDefectFree`). -/
+def FullStatement : Prop := ∀ (t : Idl) (f : GoFile), Domain t = true → genFile t = some f → wellFormed f = true
+
+/-- the full statement fails on the current generator: `interface i.f` gives `package if` -/
+theorem fullStatement_fails : ¬ FullStatement := by
+  intro h
+  have := h { name := str "i.f", doc := [], description := [], members := [.method (str "M") [] (.struct .nil) (.struct .nil)] }
+    _ (by decide) rfl
+  revert this
+  decide
+
+/-- **gen_wellformed_partial**: what is proved of `FullStatement`. Proved from the domain alone: `pkgOk` (given the
+    package name is no keyword / `main`), `typesOk`, `scopesOk`. The remaining sub-checks of `wellFormed` enter as
+    hypotheses: `importsOk` (the generator's substring test for imports is a known finding), `topLevelOk`,
+    `namesResolve`, `methodsOk`, `typedOk` (its input-dependent core is `conversions_welltyped` and
+    `copies_*_welltyped` above; what is missing is the bookkeeping that the function bodies' variables have the
+    types those lemmas assume) and `noCycleOk`. Every run of the correspondence evaluates `wellFormed` on every
+    generated description of the domain and compares it with the Go compiler (DIFF `theorem-contradicted` /
+    `model-wellformed-but-compiler-rejects` / `model-rejects-but-compiles`). -/
+theorem gen_wellformed_partial (t : Idl) (f : GoFile) (h : Domain t = true) (hk : pkgNameUsable t = true)
+    (hf : genFile t = some f)
+    (h_imports : importsOk f = true) (h_top : topLevelOk f = true) (h_names : namesResolve f = true)
+    (h_methods : methodsOk f = true) (h_typed : typedOk f = true) (h_cycle : noCycleOk f = true) :
+    wellFormed f = true := by
+  simp [wellFormed, gen_pkgOk t f h hk hf, gen_typesOk t f h hf, gen_scopesOk t f h hf, h_imports, h_top, h_names,
+    h_methods, h_typed, h_cycle]
+
+/-- the domain hypotheses of the partial theorem are satisfiable (`sample` uses an alias, an optional, an array of
+    structs and an error); that the sample's file passes the six assumed sub-checks is evaluated by the compiled
+    driver on thousands of descriptions per run (kernel `decide` does not reduce the checker's nested recursion) -/
+example : Domain sample = true ∧ pkgNameUsable sample = true ∧ (genFile sample).isSome = true :=
+  ⟨by decide, by decide, rfl⟩
 
 end Varlink.C07
